@@ -207,7 +207,7 @@ fn strategy(lang: LangId, max_ops: usize) -> BoxedStrategy<ProbeCase> {
     let cfg = MixedCfg { max_ops, allow_extraction_subst: false, ..MixedCfg::for_lang(lang) };
     let sig = lang.sig();
     let gcfg = cfg.hist.gen.clone();
-    let probe = prop_oneof![
+    let probe = crate::one_of![ 
         2 => any::<u16>().prop_map(Probe::Literal),
         3 => any::<u16>().prop_map(Probe::Alpha),
         3 => (any::<u16>(), any::<u8>()).prop_map(|(i, k)| Probe::Renamed(i, k)),
@@ -310,6 +310,219 @@ fn slots_strategy() -> BoxedStrategy<SlotCase> {
         .boxed()
 }
 
+// ---- variants that are equal *by the ground closure* (histories without rewriting) ----
+
+/// one mutation of a term: (subterm position, kind, choices)
+pub type Mutation = (u16, u8, Vec<u16>);
+
+#[derive(Clone, Debug, PartialEq, Eq, Hash, Serialize, Deserialize)]
+pub struct EqCase {
+    pub hist: Hist,
+    /// (index of the inserted term, chain of mutations applied to it)
+    pub probes: Vec<(u16, Vec<Mutation>)>,
+}
+
+/// candidate = term with some subterm's free names permuted / a subterm exchanged for another inserted (sub)term /
+/// one name replaced.  Whether the candidate is equal to the original is decided by the oracle, not by construction.
+fn mutate(t: &Tm, all_subs: &[Tm], (pos, kind, ch): &Mutation) -> Tm {
+    let n = t.size();
+    let i = idx(*pos, n);
+    let sub = nth_subterm(t, i).clone();
+    let mut src = Src::new(ch);
+    let new_sub = match kind % 4 {
+        0 | 1 => {
+            // permute the free names of the subterm among themselves
+            let fv: Vec<Name> = sub.fv().into_iter().collect();
+            if fv.len() < 2 {
+                return t.clone();
+            }
+            let mut img = fv.clone();
+            for k in (1..img.len()).rev() {
+                let j = src.pick(k + 1);
+                img.swap(k, j);
+            }
+            if img == fv {
+                img.rotate_left(1);
+            }
+            let m: BTreeMap<Name, Name> = fv.iter().copied().zip(img.into_iter()).collect();
+            rename_free_simple(&sub, &m)
+        }
+        2 => {
+            // exchange for another inserted (sub)term, names rotated
+            if all_subs.is_empty() {
+                return t.clone();
+            }
+            let o = &all_subs[src.pick(all_subs.len())];
+            let k = src.pick(4) as u8;
+            o.rename_all(&|n| if n < 4 { (n + k) % 4 } else { n })
+        }
+        _ => {
+            // one free name of the subterm replaced by another alphabet name (equal iff that position is redundant or a symmetry helps)
+            let fv: Vec<Name> = sub.fv().into_iter().collect();
+            if fv.is_empty() {
+                return t.clone();
+            }
+            let x = fv[src.pick(fv.len())];
+            let y = src.pick(5) as Name;
+            if fv.contains(&y) {
+                return t.clone();
+            }
+            let m: BTreeMap<Name, Name> = [(x, y)].into_iter().collect();
+            rename_free_simple(&sub, &m)
+        }
+    };
+    replace_nth(t, i, &new_sub)
+}
+
+fn run_eq(c: &EqCase, obs: &mut Obs) -> Result<(), String> {
+    crate::with_lang!(c.hist.lang, L => run_eq_l::<L>(c, obs))
+}
+
+fn run_eq_l<L: Language>(c: &EqCase, obs: &mut Obs) -> Result<(), String> {
+    let nm = &c.hist.naming;
+    let terms = c.hist.terms();
+    if terms.is_empty() {
+        return Ok(());
+    }
+    if let Some(k) = crate::known::route_history(&c.hist) {
+        obs.skip = Some(k);
+        return Ok(());
+    }
+    let mut all_subs: Vec<Tm> = Vec::new();
+    for t in &terms {
+        for s in t.subterms() {
+            if !all_subs.contains(s) {
+                all_subs.push(s.clone());
+            }
+        }
+    }
+    // candidates
+    let mut cands: Vec<(usize, Tm)> = Vec::new();
+    for (i, muts) in &c.probes {
+        let ti = idx(*i, terms.len());
+        let mut t = terms[ti].clone();
+        for m in muts {
+            t = mutate(&t, &all_subs, m);
+        }
+        if cands.len() < 10 && t != terms[ti] && !t.has_same_node_shadowing() && t.size() <= 30 && !cands.iter().any(|(_, u)| *u == t) {
+            cands.push((ti, t));
+        }
+    }
+    if cands.is_empty() {
+        return Ok(());
+    }
+    let mut universe = terms.clone();
+    universe.extend(cands.iter().map(|(_, t)| t.clone()));
+    let m = Ground::max_fv(&universe);
+    let maxnb = universe.iter().flat_map(|t| t.subterms()).flat_map(|s| s.kids().into_iter().map(|(b, _)| b.len()).collect::<Vec<_>>()).max().unwrap_or(0);
+    let mut g = Ground::new(&universe, (2 * m + maxnb.max(1)).max(3));
+    // bounded by generated size (the closure of a universe of millions of ground nodes takes minutes)
+    if g.too_big || g.node_count > 100_000 {
+        obs.label("oracle-too-big");
+        return Ok(());
+    }
+    let mut eg: EGraph<L> = EGraph::default();
+    let mut ids = Vec::new();
+    let mut added = Vec::new();
+    for op in &c.hist.ops {
+        match op {
+            HOp::Add(t) => {
+                ids.push(eg.add_expr(parse_tm::<L>(t, nm)));
+                added.push(t.clone());
+            }
+            HOp::Union(i, j) => {
+                eg.union(&ids[*i], &ids[*j]);
+                g.assert_eq(&added[*i], &added[*j]);
+            }
+        }
+    }
+    let tracked = ids.clone();
+    for (ti, t) in &cands {
+        // equal to the original, or to any other inserted term
+        let mut partner: Option<usize> = None;
+        if g.eq_terms(t, &terms[*ti]) == Some(true) {
+            partner = Some(*ti);
+        } else {
+            for (k, u) in terms.iter().enumerate() {
+                if g.eq_terms(t, u) == Some(true) {
+                    partner = Some(k);
+                    break;
+                }
+            }
+        }
+        obs.cmp(1);
+        let re = parse_tm::<L>(t, nm);
+        let fp0 = fingerprint(&eg, &tracked);
+        let r = lookup_rec_expr(&re, &eg);
+        match partner {
+            Some(k) => {
+                obs.label("closure-equal-variant");
+                obs.nontrivial = true;
+                let Some(r) = r else {
+                    return Err(format!(
+                        "{} is equal to the inserted term {} through the asserted equations (ground closure), so it is represented, but lookup fails",
+                        t.render(nm),
+                        terms[k].render(nm)
+                    ));
+                };
+                let a = eg.add_expr(re);
+                let fp1 = fingerprint(&eg, &tracked);
+                if fp0.classes != fp1.classes || fp0.nodes != fp1.nodes {
+                    return Err(format!(
+                        "inserting {} (equal to the inserted term {} through the asserted equations) created something: classes {} -> {}, e-nodes {} -> {}",
+                        t.render(nm),
+                        terms[k].render(nm),
+                        fp0.classes,
+                        fp1.classes,
+                        fp0.nodes,
+                        fp1.nodes
+                    ));
+                }
+                if !eg.eq(&r, &a) {
+                    return Err(format!("lookup of {} gives {:?}, add gives {:?}: not equal", t.render(nm), r, a));
+                }
+                if !eg.eq(&a, &ids[k]) {
+                    return Err(format!(
+                        "add({}) = {:?} is not equal to the invocation {:?} of {} although the asserted equations make the terms equal",
+                        t.render(nm),
+                        a,
+                        ids[k],
+                        terms[k].render(nm)
+                    ));
+                }
+            }
+            None => {
+                obs.label("closure-unequal-variant");
+                let a = eg.add_expr(re);
+                let fp1 = fingerprint(&eg, &tracked);
+                let created = fp0.classes != fp1.classes || fp0.nodes != fp1.nodes;
+                if r.is_some() == created {
+                    return Err(format!("lookup of {} returned {:?} but inserting it {}", t.render(nm), r, if created { "created something" } else { "created nothing" }));
+                }
+                if let Some(r) = r {
+                    if !eg.eq(&r, &a) {
+                        return Err(format!("lookup of {} gives {:?}, add gives {:?}: not equal", t.render(nm), r, a));
+                    }
+                }
+            }
+        }
+    }
+    Ok(())
+}
+
+fn eq_strategy(lang: LangId, max_ops: usize) -> BoxedStrategy<EqCase> {
+    let mut cfg = HistCfg::for_lang(lang);
+    cfg.max_ops = max_ops;
+    let mutation = (any::<u16>(), any::<u8>(), proptest::collection::vec(any::<u16>(), 0..6));
+    (hist_strategy(cfg), proptest::collection::vec((any::<u16>(), proptest::collection::vec(mutation, 1..3)), 6..16))
+        .prop_map(|(hist, probes)| EqCase { hist, probes })
+        .boxed()
+}
+
+fn render_eq(c: &EqCase) -> String {
+    format!("{} probes={:?}", c.hist.render(), c.probes)
+}
+
 pub fn property(tier: Tier) -> Property {
     let mut stages: Vec<Box<dyn DynStage>> = Vec::new();
     for (name, lang, q, t) in [
@@ -354,6 +567,19 @@ pub fn property(tier: Tier) -> Property {
         case_timeout_s: tier.pick(30, 120),
         exhaustive: true,
     }));
+    for (name, lang, q, t) in [("probe-equal-core", LangId::Core, 3000u32, 100_000u32), ("probe-equal-lambda", LangId::Lambda, 600, 20_000), ("probe-equal-fgh", LangId::Fgh, 600, 20_000)] {
+        let max_ops = tier.pick(7, 9);
+        stages.push(Box::new(Stage {
+            name,
+            source: random(move || eq_strategy(lang, max_ops), tier.pick(q, t)),
+            run: run_eq,
+            panic_is_violation: false,
+            render: render_eq,
+            rule: "add/union history, then variants of inserted terms obtained by chains of 1-3 mutations (free names of a subterm permuted, a subterm exchanged for another inserted subterm, one name replaced); the ground congruence closure over history + variants decides whether a variant equals an inserted term: if so lookup must find it, add must create nothing and return an invocation equal to that term's; otherwise lookup <=> add creates nothing; non-trivial = the closure proves a (syntactically different) variant equal; distinct by rendered case",
+            case_timeout_s: tier.pick(30, 120),
+            exhaustive: false,
+        }));
+    }
     stages.push(Box::new(Stage {
         name: "probe-slots",
         source: random(slots_strategy, tier.pick(4000, 80_000)),
@@ -364,5 +590,7 @@ pub fn property(tier: Tier) -> Property {
         case_timeout_s: tier.pick(30, 120),
         exhaustive: false,
     }));
-    Property { id: "C09", scale: tier.pick(5, 2), stages, assumptions: vec!["'represented' for variants is decided by construction (alpha-variant, renaming, replacement of a subterm by a term it was united with)".into()] }
+    Property { id: "C09", scale: tier.pick(5, 2), stages, assumptions: vec![
+        "'represented' for variants is decided by construction (alpha-variant, renaming, replacement of a subterm by a term it was united with) or, in the probe-equal stages, by the ground congruence closure: a term the closure proves equal to an inserted term is represented (every equality the closure derives is a consequence of the asserted equations, for any pool size)".into(),
+    ] }
 }
